@@ -256,7 +256,7 @@ fn main() {
 				runs.push((v2, "C", seqlen.min(3), full.clone()));
 			}
 		}
-		let seq_deadline = if thorough { deadline } else { t_start + Duration::from_secs(20) };
+		let seq_deadline = if thorough { t_start + Duration::from_secs(cap * 2 / 5) } else { t_start + Duration::from_secs(20) };
 		let mut jr = Vec::new();
 		let mut total = seq::SeqStats::default();
 		for (v2, nsname, len, alpha) in runs {
